@@ -78,6 +78,12 @@ def gen_world(rnd):
             kw['tag'] = rnd.choice([None, 'x', 'yy', 'xy'])
         if rnd.random() < 0.5:
             kw['prio'] = rnd.choice([None, 1, 2, 3])
+        if rnd.random() < 0.4:
+            kw['iteration'] = rnd.choice([None, 1, 2, 3])
+        if rnd.random() < 0.3:
+            kw['region'] = rnd.choice([None, 'x', 'alpha'])
+        if rnd.random() < 0.2:
+            kw['kpi_'] = rnd.choice([1, 2])
         tasks.append(kw)
     parents = [None if (k == 0 or rnd.random() < 0.45) else rnd.randrange(k) for k in range(n)]
     detached = [rnd.random() < 0.1 for _ in range(n)]
@@ -103,9 +109,9 @@ def build(world):
 def gen_filters(rnd):
     kw = {}
     for _ in range(rnd.randint(1, 3)):
-        attr = rnd.choice(['id', 'parent_id', 'name', 'resource', 'estimate', 'spent', 'milestone', 'tag', 'prio', 'nope', 'start', 'min_start', 'end'])
-        num = attr in ('id', 'parent_id', 'estimate', 'spent', 'prio')
-        strv = attr in ('name', 'resource', 'tag')
+        attr = rnd.choice(['id', 'parent_id', 'name', 'resource', 'estimate', 'spent', 'milestone', 'tag', 'prio', 'nope', 'start', 'min_start', 'end', 'iteration', 'region', 'kpi_'])
+        num = attr in ('id', 'parent_id', 'estimate', 'spent', 'prio', 'iteration', 'kpi_')
+        strv = attr in ('name', 'resource', 'tag', 'region')
         date = attr in ('start', 'end', 'min_start')
         kinds = ['', '_in_', '_not_in_', '_is_none_', '_is_not_none_', '_ne_'] + (['_lt_', '_le_', '_gt_', '_ge_'] if num or date else []) + \
             (['_like_', '_not_like_'] if strv else [])
@@ -264,7 +270,9 @@ def gen_case(rnd):
         r = rnd.random()
         step = {'list': rnd.choice(['tasks', 'tasks', 'roots', 'children', 'result', 'all_children']), 'of': rnd.randrange(9), 'op': 'query'}
         mode = rnd.random()
-        if mode < 0.7:
+        if mode < 0.06:
+            pass                       # no filter at all: lst() / remove_all() select everything
+        elif mode < 0.7:
             step['kw'] = gen_filters(rnd)
         elif mode < 0.85:
             step['callable_ids'] = sorted(rnd.sample(range(1, 10), rnd.randint(0, 5)))
@@ -273,9 +281,9 @@ def gen_case(rnd):
             step['kw'] = gen_filters(rnd)
         if r < 0.15:
             step['op'] = 'bulk'
-            step['attr'] = rnd.choice(['tag', 'prio', 'name', 'resource', 'flag'])
+            step['attr'] = rnd.choice(['tag', 'prio', 'name', 'resource', 'flag', 'iteration'])
             step['value'] = rnd.choice({'tag': ['z', None, 'x'], 'prio': [5, None, 1], 'name': ['alpha', 'zz', None],
-                                        'resource': ['R1', None, 'R9'], 'flag': ['z', 5, None, True]}[step['attr']])
+                                        'resource': ['R1', None, 'R9'], 'flag': ['z', 5, None, True], 'iteration': [2, None, 7]}[step['attr']])
         elif r < 0.3:
             step['op'] = 'remove_all'
             step['list'] = rnd.choice(['roots', 'children', 'wbs'])
